@@ -41,6 +41,11 @@ type Root struct {
 	AnyResolver   AnyResolver
 	subscriptions []*Subscription
 	subLock       sync.Mutex
+
+	// coerced collects, while a load is validated, the setting of directive
+	// use arguments to their coerced values. They are set when the load is
+	// valid and dropped when it is not.
+	coerced []func()
 	excludeTime   bool
 	excludeInt64  bool
 }
@@ -529,6 +534,9 @@ func (root *Root) SDL(full bool, desc ...bool) string {
 func (root *Root) validate() error {
 	var errs []error
 
+	root.coerced = nil
+	defer func() { root.coerced = nil }()
+
 	for _, t := range root.types.list {
 		errs = append(errs, root.validateTypeName("type", t)...)
 		errs = append(errs, root.validateDirUses(t)...)
@@ -546,6 +554,9 @@ func (root *Root) validate() error {
 	}
 	if 0 < len(errs) {
 		return Errors(errs)
+	}
+	for _, set := range root.coerced {
+		set()
 	}
 	return nil
 }
@@ -627,13 +638,17 @@ func (root *Root) validateDirUse(where string, loc Location, du *DirectiveUse) (
 		// here. A Var is also allowed.
 		if _, ok := av.Value.(Var); !ok {
 			if co, _ := a.Type.(InCoercer); co != nil {
-				if v, err := co.CoerceIn(av.Value); err != nil {
+				// Coercing fills in the defaults of input objects in place
+				// so it is done on a copy. The directive use can be one of an
+				// earlier load that has to stay as it is if this load fails.
+				if v, err := co.CoerceIn(copyValue(av.Value)); err != nil {
 					errs = append(errs, fmt.Errorf("%w at %d:%d", err, av.line, av.col))
 				} else {
 					// Might as well replace the coerced value since it is really
-					// what is needed. (No comparison first, lists and objects
-					// are not comparable.)
-					av.Value = v
+					// what is needed, once the load is known to be valid. (No
+					// comparison first, lists and objects are not comparable.)
+					av := av
+					root.coerced = append(root.coerced, func() { av.Value = v })
 				}
 			}
 		}
